@@ -152,6 +152,16 @@ def one(name, desc, scen, ending, ctx):
         dawgie.db.reopen = as_worker
         dawgie.db.close = worker_close
         dawgie.pl.worker.LOGGING = NoLog()
+        real_load = dawgie.pl.worker.load_context_with_overrides
+        pipeline_fsm = dawgie.context.fsm
+
+        def load_context(blob):
+            # worker and pipeline share one process here: the worker's copy of
+            # the context must not replace the pipeline's own FSM object
+            real_load(blob)
+            dawgie.context.fsm = pipeline_fsm
+
+        dawgie.pl.worker.load_context_with_overrides = load_context
         fsm = dawgie.context.fsm
         before = {t: (tuple(n.get('todo')), tuple(sorted(n.get('doing')))) for t, n in w.nodes.items()}
         w.obs, w.chron = [], []
@@ -184,6 +194,7 @@ def one(name, desc, scen, ending, ctx):
                     break
         finally:
             schedule.update = orig_update
+            dawgie.pl.worker.load_context_with_overrides = real_load
             (dawgie.security.connect, dawgie.db.reopen, dawgie.db.close, dawgie.pl.worker.LOGGING,
              dawgie.context.fsm) = saved
         ctx.count('worker_runs', units)
